@@ -308,6 +308,27 @@ func c05Mutations(r *rand.Rand, b []byte, dense bool, emit func([]byte, string))
 	}
 }
 
+// GenRows: inputs chosen by the coverage-guided fuzzer (crashers and corpus entries of FuzzC05), executed
+// by the monitored worker like the generated ones.
+func (c05) GenRows(rows []Ev, tier string, seed int64, emit func([]Ev)) {
+	for _, row := range rows {
+		o := c05Ops[GI(row["opi"])%len(c05Ops)]
+		in := GB(row["in"])
+		if len(in) > 2048 {
+			in = in[:2048]
+		}
+		if o.kind == "packet" {
+			var p [188]byte
+			copy(p[:], in)
+			in = p[:]
+		}
+		if in == nil {
+			in = []byte{}
+		}
+		emit([]Ev{{"op": o.name, "in": B(in), "arg": GI(row["arg"]), "src": GS(row["src"])}})
+	}
+}
+
 func (c05) Gen(tier string, seed int64, emit func([]Ev)) {
 	r := rand.New(rand.NewSource(seed))
 	dense := tier == "thorough"
